@@ -252,8 +252,10 @@ def oracle_win(p):
             # 2.2e-16 absolute on the unchanged tree (N < 400 and N = 46342; measured while adding the numpy-integer lengths
             # beyond 128).  The wrapper must hand the length over unchanged: exactly scipy's result for that very N, and the
             # Python-int window to 1e-13 of the maximum (450x the worst observed); every other window: identical arrays.
+            # (since the factory converts a numpy-integer length to int, defect D32, the factory's result is scipy's window for the
+            # PYTHON-int length)
             import scipy.signal.windows
-            ws = np.asarray(scipy.signal.windows.chebwin(Nl, kw.get("attenuation", 50)))
+            ws = np.asarray(scipy.signal.windows.chebwin(int(N), kw.get("attenuation", 50)))
             if ws.shape != w.shape or not np.array_equal(w, ws):
                 out.append("create_window %s is not scipy.signal.windows.chebwin for that length and attenuation" % tag)
             if not np.max(np.abs(w - w0)) <= 1e-13 * float(np.max(np.abs(w0))):
@@ -335,7 +337,11 @@ def oracle_win(p):
         # (a length of an unsigned / 8-bit numpy type is normalised by the factory, defect D32; the generator functions called
         # directly with such a length compute -N/2 in that type: not generated, see the ruling at PTYPES)
         wd = np.asarray(gen(N if p.get("ntype") in ("uint8", "uint16", "uint32", "uint64", "int8") else Nl, **kw))
-        if rel(wd, w) > 0:
+        if p.get("ntype") and _gen_name(name) == "window_chebwin" and wd.shape == w.shape:
+            # scipy's chebwin is not bit-identical for a numpy-integer and a Python-int length (see above): last-bit differences
+            if not np.max(np.abs(wd - w)) <= 1e-13 * float(np.max(np.abs(w))):
+                out.append("create_window(%s) differs from %s(N, **kw) by %.3e" % (tag, gen.__name__, np.max(np.abs(wd - w))))
+        elif rel(wd, w) > 0:
             out.append("create_window(%s) differs from %s(N, **kw)" % (tag, gen.__name__))
     except Exception as ex:
         out.append("%s(N, **%r) raised %r" % (gen.__name__, kw, ex))
